@@ -466,7 +466,19 @@ def prove(prog, s, ctx):
                     if ap.get((), 0) >= 1 and all(v > 0 for k2, v in ap.items()) and not shrinks_between(prog, f, C, c['id'], s.nid):
                         return 'ok', 'G2b', 'container was just resized to %s (>= 1)' % P.show(ap)
                 if c['k'] == 'CXXMemberCallExpr' and c['callee']['name'] in ('push_back', 'emplace_back') and uncast(R.render(c['obj'])) == C:
-                    return 'ok', 'G2b', 'an element was just appended'
+                    # the append is on every path to the site (not under a condition / in a loop that may run zero times), nothing
+                    # shrinks the container in between, and the site is not inside a loop that itself removes elements
+                    g_ = f.events()
+                    pv_, sv_ = g_.vertex_of.get(c['id']), g_.vertex_of.get(s.nid)
+                    in_shrinking_loop = False
+                    for a_ in f.ancestors(s.nid):
+                        if f.nodes[a_]['k'] in ('ForStmt', 'WhileStmt', 'DoStmt', 'CXXForRangeStmt'):
+                            for y in f.descendants(a_):
+                                cy = f.nodes[y]
+                                if cy['k'] == 'CXXMemberCallExpr' and cy['callee']['name'] in ('pop_back', 'erase', 'clear', 'resize') and cy.get('obj') is not None and uncast(R.render(cy['obj'])) == C:
+                                    in_shrinking_loop = True
+                    if pv_ is not None and sv_ is not None and g_.dominates(pv_, sv_) and not shrinks_between(prog, f, C, c['id'], s.nid) and not in_shrinking_loop:
+                        return 'ok', 'G2b', 'an element was just appended'
         return 'unproved', None, 'no guard establishes that %s is not empty' % C
     if s.kind == 'ptr':
         return prove_ptr(prog, s, ctx, R, facts)
@@ -650,6 +662,21 @@ def prove_ptr(prog, s, ctx, R, facts):
     f = s.f
     base = f.nodes[f.strip(s.cont_node, 'all')]
     I = uncast(R.render(s.idx_node))
+    # a local (or member) array of fixed extent N: a constant index below N, or an index the facts bound by a constant K <= N
+    at_ = re.match(r'^(?:const )?[\w: ]+\[(\d+)\]$', str(base.get('t') or base.get('decl', {}).get('type') or base.get('ftype') or ''))
+    if at_ and base['k'] in ('DeclRefExpr', 'MemberExpr') and (base['k'] == 'MemberExpr' or base['decl'].get('dk') == 'local'):
+        N = int(at_.group(1))
+        In_ = f.nodes[f.strip(s.idx_node, 'all')]
+        if 'cv' in In_:
+            if 0 <= int(In_['cv']) < N:
+                return 'ok', 'G9', 'constant position %s of an array of %d elements' % (In_['cv'], N)
+            return 'unproved', None, 'constant position %s of an array of %d elements' % (In_['cv'], N)
+        for l, op, r, _ in facts:
+            if l == I and op == '<' and re.match(r'^\d+$', str(r)) and int(r) <= N:
+                return 'ok', 'G9', '%s < %s <= %d, the extent of the array' % (I, r, N)
+            if l == I and op == '<=' and re.match(r'^\d+$', str(r)) and int(r) < N:
+                return 'ok', 'G9', '%s <= %s < %d, the extent of the array' % (I, r, N)
+        return 'undecided', None, 'position %s of an array of %d elements: no constant bound found [shape not read by the rule]' % (I, N)
     if base['k'] == 'DeclRefExpr' and base['decl'].get('dk') == 'param':
         pidx = [p['id'] for p in f.params].index(base['decl']['id'])
         # index bounded by another parameter: buffer contract at the callers
